@@ -1412,6 +1412,56 @@ def run_callbacks(level):
                         r = RENC(); r.encode(np.array([lo, hi, lo], dtype=np.int32), model); r.get_compressed()
                     except BaseException:
                         pass
+        # RE-ENTRANCY: a cdf callback runs Python code while the coder is in the middle of an operation. Whatever it does
+        # with the same coder, another coder or the same model at its j-th invocation must be refused (any exception,
+        # swallowed by the callback) or be harmless: the outer operation completes as if the callback had done nothing,
+        # and a mutating call on the coder that is busy must never succeed
+        counters["py_reentrant_calls"] = 0; counters["py_reentrant_calls_refused"] = 0
+        base_cdf = logistic(0.3, 1.7)
+        msg_re = np.array([-2, 0, 1, 3, 0], dtype=np.int32)
+        plain = M.CustomModel(base_cdf, lambda xi, *a: 0.0, -5, 5)
+        def reference(kind):
+            if kind == "ans encode":
+                c = ANS(); c.encode_reverse(msg_re, plain); return [int(x) for x in c.get_compressed()]
+            if kind == "range encode":
+                c = RENC(); c.encode(msg_re, plain); return [int(x) for x in c.get_compressed()]
+            c = ANS(words_list[0], True); return [int(x) for x in c.decode(plain, 4)] + [int(x) for x in c.get_compressed()]
+        inner_ops = [("get_compressed on the busy coder", False, lambda c, m: c.get_compressed()), ("clone of the busy coder", False, lambda c, m: c.clone()),
+                     ("num_words on the busy coder", False, lambda c, m: c.num_words()), ("pos on the busy coder", False, lambda c, m: c.pos()),
+                     ("encode on the busy coder", True, lambda c, m: (c.encode_reverse(1, M.Uniform(4)) if hasattr(c, "encode_reverse") else c.encode(1, M.Uniform(4)))),
+                     ("clear on the busy coder", True, lambda c, m: c.clear()),
+                     ("decode on the busy coder", True, lambda c, m: c.decode(M.Uniform(4)) if hasattr(c, "decode") else c.clear()),
+                     ("the same model on another coder", False, lambda c, m: ANS().encode_reverse(0, m)),
+                     ("a new coder with another model", False, lambda c, m: ANS().encode_reverse(np.array([1, 2], dtype=np.int32), M.Uniform(4)))]
+        for kind in ("ans encode", "range encode", "ans decode"):
+            want = reference(kind)
+            for oname, mutating, op in inner_ops:
+                for j in (0, 1, 3, 6):
+                    n += 1; counters["py_reentrant_calls"] += 1
+                    box = {"calls": 0, "coder": None, "model": None, "inner_ok": False}
+                    def cdf_re(x, *a):
+                        i = box["calls"]; box["calls"] += 1
+                        if i == j:
+                            try:
+                                op(box["coder"], box["model"]); box["inner_ok"] = True
+                            except BaseException:
+                                counters["py_reentrant_calls_refused"] += 1
+                        return base_cdf(x)
+                    model = M.CustomModel(cdf_re, lambda xi, *a: 0.0, -5, 5); box["model"] = model
+                    try:
+                        if kind == "ans encode":
+                            c = ANS(); box["coder"] = c; c.encode_reverse(msg_re, model); got = [int(x) for x in c.get_compressed()]
+                        elif kind == "range encode":
+                            c = RENC(); box["coder"] = c; c.encode(msg_re, model); got = [int(x) for x in c.get_compressed()]
+                        else:
+                            c = ANS(words_list[0], True); box["coder"] = c; got = [int(x) for x in c.decode(model, 4)] + [int(x) for x in c.get_compressed()]
+                    except BaseException as e:
+                        fail("Python front end | re-entrant callback | the outer operation fails although the callback swallowed the inner refusal", f"{kind}, callback #{j} does: {oname}: {type(e).__name__}: {str(e)[:100]}")
+                        continue
+                    if mutating and box["inner_ok"]:
+                        fail("Python front end | re-entrant callback | a mutating call on the coder that is in the middle of an operation succeeds", f"{kind}, callback #{j} does: {oname}")
+                    elif got != want:
+                        fail("Python front end | re-entrant callback | the outer operation's result differs from a run without re-entrancy", f"{kind}, callback #{j} does: {oname}: {got} instead of {want}")
         # per-symbol parameters for the callbacks
         fam = M.CustomModel(lambda x, loc, scale: 1.0 / (1.0 + math.exp(-max(min((x - loc) / scale, 700.0), -700.0))), lambda xi, loc, scale: loc, -20, 20)
         locs, scales = np.array([0.3, -7.7, 19.0, 2.0]), np.array([1.0, 0.01, 5.0, 30.0])
